@@ -166,6 +166,44 @@ def check_instantiate_proxy(ctx, m, g, mt):
         ctx.tag("feat.no-cw12")
 
 
+CHAIN_OPS = {"execute", "instantiate_contract", "wasm_sudo", "execute_contract", "migrate_contract", "execute_multi", "sudo"}
+
+
+def is_downcast_unwrap(cl):
+    """|err| err.downcast().unwrap()   /   |err| err.downcast::<T>().unwrap()"""
+    cl = A.strip_expr(cl)
+    if cl["k"] != "closure" or len(cl["inputs"]) != 1 or cl["inputs"][0].get("k") != "ident":
+        return False
+    v = cl["inputs"][0]["name"]
+    b = A.strip_expr(cl["body"])
+    return b["k"] == "mcall" and b["method"] == "unwrap" and not b["args"] and A.strip_expr(b["recv"])["k"] == "mcall" \
+        and A.strip_expr(b["recv"])["method"] == "downcast" and A.path_ids(A.strip_expr(b["recv"])["recv"]) == [v]
+
+
+def check_error_maps(ctx, m, g, mt):
+    """the error of every chain operation performed by generated multitest code is mapped by a plain downcast to the contract's
+    error type (so that a handler error surfaces as the value the handler returned)"""
+    key0 = [m.crate_key, "::".join(m.modpath + [m.name]), "error-map"]
+    for imp in mt:
+        if imp.get("k") != "impl":
+            continue
+        for f in imp["items"]:
+            if f.get("k") != "fn" or not f.get("body"):
+                continue
+            for me in A.find_all(f["body"], lambda n: isinstance(n, dict) and n.get("x") and n.get("k") == "mcall" and n["method"] == "map_err" and len(n["args"]) == 1):
+                r = A.strip_expr(me["recv"])
+                if not (r["k"] == "mcall" and r["method"] in CHAIN_OPS):
+                    continue
+                ctx.inst("C12.error-map", distinct=(m.key, f["name"], r["method"]))
+                if not is_downcast_unwrap(me["args"][0]):
+                    ctx.violation("C12.error-map", key0 + [f["name"], r["method"]], C.where(m, f), f"{r['method']}(..).map_err(|err| err.downcast().unwrap())", "another error mapping", STATEMENT,
+                                  "an error returned by a handler surfaces as a value of the contract's error type equal to the one returned")
+            # a chain operation whose error is not mapped at all is fine only if the method returns the chain's own error type; the
+            # generated proxies always map, so an unmapped `?` directly on a chain op is reported as unrecognised
+            for op in A.find_all(f["body"], lambda n: isinstance(n, dict) and n.get("x") and n.get("k") == "try" and A.strip_expr(n["expr"])["k"] == "mcall" and A.strip_expr(n["expr"])["method"] in CHAIN_OPS):
+                ctx.unrecognised("C12.error-map", key0 + [f["name"], "unmapped"], C.where(m, f), "chain operation error propagated without the downcast mapping")
+
+
 def run(ctx):
     C.corpus_must_compile(ctx, "C12.compile")
     rrules.rule_flow_contracts(ctx, {"R6"})
@@ -187,6 +225,7 @@ def run(ctx):
         for k in kinds:
             if m.handlers[k]:
                 ctx.tag(f"mt.proxy.{k}")
+        check_error_maps(ctx, m, g, mt)
         if m.kind == "contract":
             check_code_id(ctx, m, g, mt)
             check_instantiate_proxy(ctx, m, g, mt)
@@ -196,6 +235,7 @@ def run(ctx):
             ctx.violation("TAG", [t], "corpus", f"a corpus program exercising {t}", "none", "corpus adequacy (DESIGN-appendix A 32)")
     ctx.floor("C12.proxy", 200)
     ctx.floor("C12.code_id", 40)
+    ctx.floor("C12.error-map", 60)
     return check.finish(
         ctx, "other",
         "structure only: every generated proxy method builds the message of its own handler through the constructor of that handler's variant with the parameters in order and performs exactly the cw-multi-test operation of its kind (ExecProxy -> execute_contract, query -> query_wasm_smart, sudo -> wasm_sudo, MigrateProxy -> migrate_contract) on the proxy's own address and app; CodeId::store_code boxes Contract::new(); instantiate defaults (funds &[], label \"Contract\", admin None, salt None) and with_* setters each replace one field; instantiate_contract / Instantiate2 receive code id, sender, message, funds, label, admin, salt; R6 flow contracts over sylvia/src/multitest.rs (ExecProxy / MigrateProxy new, with_funds, call incl. error downcast). By T3 the chain operations serialise the message with the serde impl C01 describes, so proxy path and raw-JSON path hand identical bytes and options to the same chain function; the chain itself is NOT analysed, histories are not enumerated",
